@@ -802,7 +802,13 @@ func (g *FuncGen) execGhost(at string, cx *SpecCtx) {
 				cx.fail("ghost target must be a single location: %s", gs.Src)
 			}
 			loc := locs[0]
-			N := g.declare("ghostmap", "(Array Int Int)")
+			msort := "(Array Int Int)"
+			if ci, ok := g.env.comps[loc.comp]; ok && ci.kind == "ghoststr" {
+				msort = "(Array Int Str)"
+			} else if ok && ci.kind == "ghostset" {
+				msort = "(Array Int Bool)"
+			}
+			N := g.declare("ghostmap", msort)
 			name := fmt.Sprintf("%s!g%d", bv.Name, g.sc.counter)
 			g.sc.counter++
 			n := *cx
